@@ -791,6 +791,19 @@ func (k *c10k) matchSource(v ssa.Value, d int) *ssa.Call {
 		}
 	case *ssa.IndexAddr:
 		return k.matchSource(x.X, d+1)
+	case *ssa.Slice:
+		// a reslice holds elements of what it slices
+		return k.matchSource(x.X, d+1)
+	case *ssa.Phi:
+		var src *ssa.Call
+		for _, e := range x.Edges {
+			s := k.matchSource(e, d+1)
+			if s == nil || (src != nil && src != s) {
+				return nil
+			}
+			src = s
+		}
+		return src
 	case *ssa.Call:
 		n := ssau.CallName(x)
 		if n == "github.com/sahilm/fuzzy.Find" || n == "github.com/sahilm/fuzzy.FindNoSort" {
